@@ -141,6 +141,28 @@ impl WirePeer {
         Err(h("the daemon neither read the bytes nor closed the connection within the real-time budget"))
     }
 
+    /// write without waiting for the daemon's counters (the caller judges what happens next)
+    pub async fn write_only(&mut self, bytes: &[u8], chunks: &[usize]) -> Result<(), Failure> {
+        use tokio::io::AsyncWriteExt;
+        let mut pos = 0;
+        let mut k = 0;
+        while pos < bytes.len() {
+            let n = if chunks.is_empty() { bytes.len() } else { chunks[k % chunks.len()].max(1) };
+            k += 1;
+            let end = (pos + n).min(bytes.len());
+            let Some(s) = self.stream.as_mut() else { return Err(h("no connection")) };
+            if s.write_all(&bytes[pos..end]).await.is_err() {
+                self.closed = true;
+                return Ok(());
+            }
+            pos = end;
+            if !chunks.is_empty() {
+                self.settle().await;
+            }
+        }
+        Ok(())
+    }
+
     pub async fn send_msg(&mut self, codec: &mut bgp::PeerCodec, msg: &bgp::Message) -> Result<(), Failure> {
         let mut buf = bytes::BytesMut::new();
         let n = codec.encode_to(msg, &mut buf).map_err(|e| h(format!("encode: {e:?}")))?;
